@@ -24,7 +24,10 @@ class Deadlock(Exception):
 
 
 class Sched:
+    gen = 0                       # scenario generation: threads of an earlier scenario never take part in a later one
+
     def __init__(self):
+        Sched.gen += 1
         self.lock = _REAL_THREADING.Condition()
         self.pending = {}         # thread name -> description of the announced access (dict)
         self.granted = None
@@ -46,18 +49,21 @@ class Sched:
         nm = self.me()
         if not self.active or nm is None:
             return
-        with self.lock:
+        gen, lock = Sched.gen, self.lock
+        with lock:
             self.pending[nm] = {"t": nm, "k": kind, "v": var, "x": val}
-            self.lock.notify_all()
+            lock.notify_all()
             while self.granted != nm:
-                self.lock.wait(10.0)
-                if not self.active:
-                    break
+                lock.wait(10.0)
+                if not self.active or gen != Sched.gen or lock is not self.lock:
+                    return None           # released, or left over from an earlier scenario: run on freely
+            if gen != Sched.gen or lock is not self.lock:
+                return None
             self.granted = None
             d = self.pending.pop(nm, None)
             if d is not None:
                 self.log.append(d)
-            self.lock.notify_all()
+            lock.notify_all()
             return d
 
     def block(self, nm):
@@ -187,6 +193,14 @@ class _TimeShim:
     @staticmethod
     def time():
         return SCHED.vt.get(SCHED.me(), SCHED.vtime) if SCHED.active and SCHED.me() else _realtime.time()
+
+    @staticmethod
+    def monotonic():              # (a maintainer may measure the one-second limits on the monotonic clock)
+        return SCHED.vt.get(SCHED.me(), SCHED.vtime) if SCHED.active and SCHED.me() else _realtime.monotonic()
+
+    @staticmethod
+    def perf_counter():
+        return SCHED.vt.get(SCHED.me(), SCHED.vtime) if SCHED.active and SCHED.me() else _realtime.perf_counter()
 
     def __getattr__(self, name):
         return getattr(_realtime, name)
